@@ -266,7 +266,7 @@ func jobC03(c *rt.Ctx) {
 				if si == nseeds-1 {
 					idx = -1
 				}
-				t := honestTriple(idx, msgOf(mi, vs), vs)
+				t := libTriple(idx, msgOf(mi, vs), vs)
 				c.DistinctB(true, []byte("s"), t.key, t.sig, []byte{byte(vi)})
 				S := ref.LE(t.sig[32:])
 				A, okA := ref.Decode(t.key)
@@ -354,7 +354,7 @@ func jobC03(c *rt.Ctx) {
 				continue
 			}
 			msg := msgLen(l, li)
-			t := honestTriple(4000+li%7, msg, vs)
+			t := libTriple(4000+li%7, msg, vs)
 			c.Class("msglen-sweep")
 			c.Distinct(fmt.Sprintf("ml %d %d", l, vi), true)
 			for _, zip := range []bool{false, true} {
@@ -387,7 +387,7 @@ func jobC03(c *rt.Ctx) {
 						entries := make([]triple, n)
 						for i := range entries {
 							s := (i*5 + rot*17 + vi) % 300
-							entries[i] = honestTriple(2000+s, msgOf(i+rot, vs), vs)
+							entries[i] = libTriple(2000+s, msgOf(i+rot, vs), vs)
 						}
 						var rnd *rt.Rng
 						if ent == 1 {
@@ -448,7 +448,7 @@ func jobC03(c *rt.Ctx) {
 				zip := (bp+ki)%2 == 1
 				entries := make([]triple, n)
 				for i := range entries {
-					entries[i] = honestTriple(6000+i%40, msgOf(i, vs), vs)
+					entries[i] = libTriple(6000+i%40, msgOf(i, vs), vs)
 				}
 				entries[bp] = mkEntry(kind, bp, vs)
 				_, valid, err, pv := implBatch(entries, vs, zip, rt.NewRng(c.Seed, "c03mix"))
@@ -478,7 +478,7 @@ func jobC03(c *rt.Ctx) {
 				if !c.Take() {
 					continue
 				}
-				t := honestTriple(3000+pos+vi, msgOf(pos, vs), vs)
+				t := libTriple(3000+pos+vi, msgOf(pos, vs), vs)
 				entries := batchWith(t, pos, n, vs)
 				all, valid, err, pv := implBatch(entries, vs, pos%2 == 1, rt.NewRng(c.Seed, "c03p"))
 				c.Step(1)
